@@ -62,12 +62,12 @@ func runStream(kind string, mc, ms uint32, chunks []wchunk) ([]out, [][2]int) {
 	}()
 	var outs []out
 	for i := 0; i < len(chunks)+2; i++ {
-		o := recvOne(sc, conn, 5*time.Second)
+		o := recvOne(sc, conn, 3*time.Second)
 		if o.K == "eof" {
 			break
 		}
 		outs = append(outs, o)
-		if o.K == "panic" || o.K == "chanerr" || o.K == "timeout" {
+		if o.K == "panic" || o.K == "chanerr" || o.K == "timeout" || o.K == "stuck" {
 			break
 		}
 	}
